@@ -4,3 +4,7 @@ func init() {
 	registerReplay([]string{"(dht/int160.T).Cmp", "(*dht/int160.T).Xor", "dht/int160.Distance", "(dht/int160.T).Distance", "(*dht/int160.T).GetBit",
 		"(*dht/int160.T).SetBit", "(*dht/int160.T).IsZero"}, "int160", "int160/int160_replay_test.go", "TestGovcReplayInt160")
 }
+
+func init() {
+	registerReplay([]string{"dht.crcIP", "dht.SecureNodeId", "dht.NodeIdSecure", "dht.isLocalNetwork"}, ".", "root/security_replay_test.go", "TestGovcReplaySecurity")
+}
